@@ -342,6 +342,15 @@ def run_aes(job, cfgs, AES, spy, gcm_mod):
                     else:
                         ct, tag = ci.decrypt_and_verify(buf_at(ref_ct, off), ref_tag), b""
                     o.update(tn=type(ct).__name__, by=list(ct), tag=list(tag))
+                elif job.get("outoff"):
+                    # the result goes into a caller-supplied buffer that is not aligned: a memoryview outoff bytes into a larger bytearray
+                    src = data if enc else ref_ct
+                    ob = bytearray(job["outoff"] + len(src) + 5)
+                    mv = memoryview(ob)[job["outoff"]:job["outoff"] + len(src)]
+                    res = ci.encrypt(buf_at(src, off), output=mv) if enc else ci.decrypt(buf_at(src, off), output=mv)
+                    o.update(tn=type(res).__name__ if res is not None else "bytes", by=list(bytes(mv)))
+                    if res is not None:
+                        o["tn"] = "returned " + type(res).__name__ + " although output= was given"
                 else:
                     res = ci.encrypt(buf_at(data, off)) if enc else ci.decrypt(buf_at(ref_ct, off))
                     o.update(tn=type(res).__name__, by=list(res))
@@ -451,9 +460,67 @@ def main_aes():
         raise SystemExit("AES-NI is not available on this machine: the configurations cannot be realised")
     AES._raw_aesni_lib = spy
     out = {"have": have, "recs": []}
-    for job in inp["jobs"]:
-        out["recs"].append(run_aes(job, inp["cfgs"], AES, spy, _mode_gcm))
+    # Jobs run in a forked worker that streams one record per job.  If the worker dies (a fault in native code under one configuration),
+    # the job it was executing is re-run with one forked child per configuration, so that the record says under WHICH configuration the
+    # process died (observation "crash(signal N)" in the place of the exception class) and the remaining jobs still run.
+    jobs = inp["jobs"]
+    i = 0
+    while i < len(jobs):
+        rfd, wfd = os.pipe()
+        pid = os.fork()
+        if pid == 0:
+            os.close(rfd)
+            with os.fdopen(wfd, "w") as w:
+                for job in jobs[i:]:
+                    w.write(json.dumps(run_aes(job, inp["cfgs"], AES, spy, _mode_gcm)) + "\n")
+                    w.flush()
+            os._exit(0)
+        os.close(wfd)
+        with os.fdopen(rfd) as rd:
+            for line in rd:
+                if line.endswith("\n"):
+                    out["recs"].append(json.loads(line))
+                    i += 1
+        _, status = os.waitpid(pid, 0)
+        if i < len(jobs) and not (os.WIFEXITED(status) and os.WEXITSTATUS(status) == 0):
+            out["recs"].append(run_isolated(jobs[i], inp["cfgs"], AES, spy, _mode_gcm))
+            i += 1
     json.dump(out, sys.stdout)
+
+
+def run_isolated(job, cfgs, AES, spy, gcm_mod):
+    """one forked child per configuration; a child that dies by a signal yields the observation crash(signal N)"""
+    rec = None
+    obs = []
+    gcm = job.get("fam") == "ghash" or job.get("mode") == "gcm" or str(job.get("what", "")).startswith("gcm")
+    for c in cfgs:
+        if not gcm and not c["use_clmul"]:
+            continue                          # use_clmul only exists for GCM: the in-process loop skips these configurations too
+        rfd, wfd = os.pipe()
+        pid = os.fork()
+        if pid == 0:
+            os.close(rfd)
+            with os.fdopen(wfd, "w") as w:
+                w.write(json.dumps(run_aes(job, [c], AES, spy, gcm_mod)))
+            os._exit(0)
+        os.close(wfd)
+        with os.fdopen(rfd) as rd:
+            text = rd.read()
+        _, status = os.waitpid(pid, 0)
+        if os.WIFSIGNALED(status) or not text:
+            sig = os.WTERMSIG(status) if os.WIFSIGNALED(status) else 0
+            obs.append({"who": cfg_label(c), "tn": "none", "ex": "crash(signal %d)" % sig, "by": [], "tag": [],
+                        "aes": "aesni" if c["use_aesni"] else "generic", "ghash": ""})
+        else:
+            r1 = json.loads(text)
+            if rec is None:
+                rec = r1
+            mine = [o for o in r1["obs"] if o["who"] == cfg_label(c)]
+            obs += mine[-1:]
+    if rec is None:      # died under every configuration: rebuild the fixed part of the record without running anything
+        rec = dict(job, key=[], iv=[], aad=[], data=[], obs=[])
+    rec["obs"] = obs
+    return rec
 
 
 if __name__ == "__main__":
